@@ -193,35 +193,44 @@ Definition resolve_level (anc : path) (locals : gmap) (nm : option str) (d v : r
     end
   end.
 
+(* helpers for the recursion over children (defined in a section so that the function is a
+   parameter outside the fix, which is what the guard condition needs) *)
+Section ChildRecursion.
+  Context {A B : Type}.
+  Context (f : A -> option (list B)) (g : N -> A -> list B).
+  (* concatenation of the results, None as soon as one fails *)
+  Fixpoint opt_concat_map (l : list A) : option (list B) :=
+    match l with
+    | [] => Some []
+    | c :: r =>
+      match f c with
+      | None => None
+      | Some a => match opt_concat_map r with None => None | Some b => Some (a ++ b) end
+      end
+    end.
+  Fixpoint flat_mapi (i : N) (l : list A) : list B :=
+    match l with
+    | [] => []
+    | c :: r => g i c ++ flat_mapi (N.succ i) r
+    end.
+End ChildRecursion.
+
 Fixpoint load (anc : path) (locals : gmap) (t : rtree) : option (list ltree) :=
   match t with
   | RRole nm d v ch =>
     match resolve_level anc locals nm d v with
     | None => None
     | Some (n, lv) =>
-      match (fix go (l : list rtree) : option (list ltree) :=
-               match l with
-               | [] => Some []
-               | c :: r =>
-                 match load (lv :: anc) [] c with
-                 | None => None
-                 | Some a => match go r with None => None | Some b => Some (a ++ b) end
-                 end
-               end) ch with
+      (* setParent + ProcessTemplates of every child, in order; the first error aborts *)
+      match opt_concat_map (load (lv :: anc) []) ch with
       | None => None
       | Some kids => Some [LNode n lv kids]
       end
     end
   | RIter var vals tpl =>
-    (fix it (l : list str) : option (list ltree) :=
-       match l with
-       | [] => Some []
-       | x :: r =>
-         match load anc [(var, x)] tpl with
-         | None => None
-         | Some a => match it r with None => None | Some b => Some (a ++ b) end
-         end
-       end) vals
+    (* expandTemplate: one copy of the template per value, the value as a local, parented to
+       the iterator's parent *)
+    opt_concat_map (fun x => load anc [(var, x)] tpl) vals
   end.
 
 (* SetRuntimeVar / DeleteRuntimeVar on the role at a child-index address ([0] = root) *)
@@ -250,17 +259,10 @@ Fixpoint nodes (anc : path) (raddr : list N) (t : ltree) : list (list N * str * 
   match t with
   | LNode n lv ch =>
     (rev raddr, n, lv :: anc)
-    :: (fix go (i : N) (l : list ltree) : list (list N * str * path) :=
-          match l with
-          | [] => []
-          | c :: r => nodes (lv :: anc) (i :: raddr) c ++ go (N.succ i) r
-          end) 0 ch
+    :: flat_mapi (fun i c => nodes (lv :: anc) (i :: raddr) c) 0 ch
   end.
-Fixpoint forest_nodes (anc : path) (i : N) (ts : list ltree) : list (list N * str * path) :=
-  match ts with
-  | [] => []
-  | t :: r => nodes anc [i] t ++ forest_nodes anc (N.succ i) r
-  end.
+Definition forest_nodes (anc : path) (ts : list ltree) : list (list N * str * path) :=
+  flat_mapi (fun i t => nodes anc [i] t) 0 ts.
 
 (* what the harness reads at one role *)
 Record view := mkView {
@@ -278,7 +280,7 @@ Definition view_of (x : list N * str * path) : view :=
 Definition run_tree (env : level) (t : rtree) (ops : list (list N * mop)) : option (list view) :=
   match load [env] [] t with
   | None => None
-  | Some f => Some (map view_of (forest_nodes [env] 0 (apply_uops ops f)))
+  | Some f => Some (map view_of (forest_nodes [env] (apply_uops ops f)))
   end.
 
 (* ---------- task level (core/task/task.go) ---------- *)
